@@ -23,6 +23,8 @@ pub struct Expect {
     pub count_only: Vec<u32>,
     /// Total number of loop rounds executed (all loops, all nestings).
     pub rounds: u64,
+    /// The program grows beyond what is worth executing (generator safety net): skip the case.
+    pub too_large: bool,
 }
 
 impl Expect {
@@ -199,7 +201,15 @@ pub fn eval_chain(
     v
 }
 
+thread_local! {
+    static TOO_LARGE: std::cell::Cell<bool> = const { std::cell::Cell::new(false) };
+}
+
 fn join(l: &[Rec], r: &[Rec], kind: JoinKind) -> Vec<Rec> {
+    if l.len().saturating_mul(r.len()) > 4_000_000 {
+        TOO_LARGE.with(|t| t.set(true));
+        return Vec::new();
+    }
     let mut out = Vec::new();
     let mut r_matched = vec![false; r.len()];
     for a in l {
@@ -227,6 +237,13 @@ fn join(l: &[Rec], r: &[Rec], kind: JoinKind) -> Vec<Rec> {
 
 /// Evaluate the whole program. Returns the expectations and the value of every sink.
 pub fn eval_program(p: &Program) -> (Expect, HashMap<Var, Vec<Rec>>) {
+    TOO_LARGE.with(|t| t.set(false));
+    let (mut ex, sinks) = eval_program_inner(p);
+    ex.too_large = TOO_LARGE.with(|t| t.get()) || ex.per_probe.values().flatten().map(|v| v.len()).sum::<usize>() > 6_000_000;
+    (ex, sinks)
+}
+
+fn eval_program_inner(p: &Program) -> (Expect, HashMap<Var, Vec<Rec>>) {
     let mut ex = Expect::default();
     let mut env: HashMap<Var, Vec<Rec>> = HashMap::new();
     let mut sinks = HashMap::new();
